@@ -1797,14 +1797,31 @@ class Module(ABC):
         if name in channel_names:
             channel_cols = list(channel.channel_params.keys())
             channel_cols += list(channel.channel_states.keys())
-            self.base.nodes.loc[self._nodes_in_view, channel_cols] = float("nan")
             self.base.nodes.loc[self._nodes_in_view, name] = False
+            # Columns which are shared with other channels (e.g. `vt`, `eK`) must be
+            # kept in all compartments in which such a channel is still present.
+            others = [c for c in self.base.channels if c._name != name]
+            for col in channel_cols:
+                users = [
+                    c._name
+                    for c in others
+                    if col in {**c.channel_params, **c.channel_states}
+                ]
+                still_used = self.base.nodes.loc[self._nodes_in_view, users].any(axis=1)
+                unused = self._nodes_in_view[~still_used.to_numpy().astype(bool)]
+                self.base.nodes.loc[unused, col] = float("nan")
 
             # only delete cols if no other comps in the module have the same channel
             if np.all(~self.base.nodes[name]):
                 self.base.channels.pop(all_channel_names.index(name))
-                self.base.membrane_current_names.remove(channel.current_name)
-                self.base.nodes.drop(columns=channel_cols + [name], inplace=True)
+                remaining = self.base.channels
+                if channel.current_name not in [c.current_name for c in remaining]:
+                    self.base.membrane_current_names.remove(channel.current_name)
+                shared = {
+                    k for c in remaining for k in {**c.channel_params, **c.channel_states}
+                }
+                own_cols = [c for c in channel_cols if c not in shared]
+                self.base.nodes.drop(columns=own_cols + [name], inplace=True)
         else:
             raise ValueError(f"Channel {name} not found in the module.")
 
